@@ -130,6 +130,9 @@ type W struct {
 	inconclusive string
 	lastSample   *Sample
 	top          *frame
+	traced       map[any]string // shared cells (*Value) and maps (*MapObj) whose accesses are logged
+	traceEvents  []string
+	inMapSet     bool
 }
 
 type methodKey struct {
@@ -517,6 +520,52 @@ func shortSite(s string) string {
 		return s[i+1:]
 	}
 	return s
+}
+
+// traceAccess logs an access to a traced shared cell.
+func (w *W) traceAccess(kind string, key any) {
+	if name, ok := w.traced[key]; ok {
+		w.traceEvents = append(w.traceEvents, kind+" "+name)
+	}
+}
+
+// traceRegister registers every cell reachable from v (a struct value's fields,
+// recursively through nested structs; map objects as a whole) under name.
+func (w *W) traceRegister(cell *Value, name string, depth int) {
+	if w.traced == nil {
+		w.traced = map[any]string{}
+	}
+	if depth > 6 {
+		return
+	}
+	w.traced[cell] = name
+	switch cell.k {
+	case KStruct, KArray:
+		fs := cell.p.([]Value)
+		for i := range fs {
+			w.traceRegister(&fs[i], fmt.Sprintf("%s.f%d", name, i), depth+1)
+		}
+	case KMap:
+		if cell.p != nil {
+			m := cell.p.(*MapObj)
+			w.traced[m] = name
+			for _, e := range m.entries {
+				if !e.deleted && e.val.k == KPtr {
+					if p := e.val.ptr(); p != nil {
+						w.traceRegister(p, name+"["+shortKey(e.hkey)+"]", depth+1)
+					}
+				}
+			}
+		}
+	}
+}
+
+func shortKey(h string) string {
+	var x uint32 = 2166136261
+	for i := 0; i < len(h); i++ {
+		x = (x ^ uint32(h[i])) * 16777619
+	}
+	return fmt.Sprintf("%08x", x)
 }
 
 func (w *W) stackString() string {
